@@ -210,6 +210,23 @@ PROPS = {
                  "value lengths other than those listed"],
         assumptions=["the ORM persists exactly the mapped attributes that the snapshot compares"],
     ),
+    "C06": dict(
+        modules=["harness.c06"],
+        level="other",
+        explanation="Bounded symbolic execution of the real CryptographyEngine (encrypt/_encrypt_symmetric, decrypt, "
+                    "_handle_symmetric_padding, mac, sign, verify_signature) built by its real __init__ after the "
+                    "cryptography primitives in its module namespace were replaced by recording fakes whose outputs "
+                    "are an injective, readable function of their inputs; and of the real _process_derive_key with a "
+                    "backend that returns more bytes than asked. Oracle: reference table from the docstrings and KMIP.",
+        stubs=["fake ciphers.Cipher / algorithms.* (real key-size rules) / modes.*", "pure-Python PKCS7 and ANSI X.923 padders",
+               "fake hmac.HMAC / cmac.CMAC / hashes.*", "fake serialization loaders and RSA key objects",
+               "os.urandom -> fresh symbolic bytes", "FakeSession, NullLogger"],
+        outside=["the numerical results of hashing, ciphers, RSA, KDFs (Rust/OpenSSL boundary): equality with reference "
+                 "implementations, Verify(Sign) with real keys, freshness of generated keys",
+                 "asymmetric encryption, key wrapping and the individual KDF parameterisations (not built)",
+                 "plaintext lengths other than 0, 1, block-1, block, block+1, 2*block"],
+        assumptions=["the cryptography package computes what its primitives are documented to compute"],
+    ),
     "C15": dict(
         modules=["harness.c15"],
         level="other",
@@ -267,6 +284,19 @@ PROPS = {
 }
 
 CLAIMS = {
+    "C06": dict(
+        text="PLUMBING ONLY: the outputs of the cryptography backend cannot be encoded, so equality with reference "
+             "implementations and freshness are not decided. Decided, on every path within the bounds, with the "
+             "backend primitives replaced by recording fakes: Encrypt hands the backend exactly the supplied key, IV "
+             "(or a generated one of block size that is returned) and AAD, pads exactly for CBC/ECB with the requested "
+             "method, returns the first tag-length bytes of the tag, and refuses exactly the unserviceable requests; "
+             "Decrypt undoes Encrypt through the same plumbing; MAC selects the hash/cipher the enumeration names and "
+             "turns every backend exception into CryptographicFailure; Sign/SignatureVerify use the hash and padding "
+             "the parameters name (digital signature algorithm or algorithm+hash pair); DeriveKey stores exactly the "
+             "requested number of bytes for keys and secret data.",
+        note="The statement's input-output half (results equal independent implementations) follows only under the "
+             "assumption that the cryptography package is correct; listed as outside the claim.",
+    ),
     "C05": dict(
         text="PARTIAL (the SQL engine leg is trusted): within the bounds, the key-wrapping-data columns reproduce "
              "the supplied dictionary field by field; the usage-mask and enumeration column types satisfy "
